@@ -1,7 +1,7 @@
 SPECIFICATION Spec
 CONSTANTS
   MaxPg = 8
-  MaxTx = 3
+  MaxTx = 4
   MaxReaders = 0
   NoFLSync = FALSE
   EnableCrash = TRUE
